@@ -166,6 +166,12 @@ def gen_value_case(ch):
         if f.scale == 0:
             inputs.append(k + f.ref)
             continue
+        if f.scale < 0 and ch.bool(1, 2):
+            # a negative effective scale: whole numbers, handed over as Python ints, on and off the (coarse) grid
+            step = 10 ** (-f.scale)
+            inputs.append((k + f.ref) * step + ch.weighted([(2, 0), (2, ch.int(-(step - 1), step - 1)), (1, step // 2 - 1), (1, -(step // 2 - 1)),
+                                                           (1, step // 2 + 1), (1, 8 * step // 10)]))
+            continue
         delta = ch.choice([Fraction(0), Fraction(1, 4), Fraction(-1, 4), Fraction(49, 100), Fraction(-49, 100),
                            Fraction(51, 100), Fraction(-51, 100), Fraction(1, 10), Fraction(-3, 10)])
         x = float((Fraction(k) + delta + f.ref) / (Fraction(10) ** f.scale))
